@@ -18,7 +18,7 @@ LEVEL_TEXT = ("Static structural proof of necessary conditions: (R9.1) every fun
               "registered as DEFINITION_INVALID and reachable from the dictionary, HED_DEF_EXPAND_INVALID as "
               "DEF_EXPAND_INVALID from string validation. The content of an expansion, the shrink/expand round trip "
               "beyond R9.1 and interleavings with copy/validate are NOT decided.")
-LEVEL_EXTRA = 'Added after the seeded evaluation: (R9.5) HedTag.__deepcopy__ copies the cached expansion, its flag and the parent link; (R9.6) validators obtain expansions with a copy of the tag; (R9.7) every access to a definition table case-folds with casefold (one frozen exception: keys copied from another table); (R9.8) the nested-Def search in definition contents is recursive. (R9.9) the Def-expand content test compares sorted forms of both groups.'
+LEVEL_EXTRA = 'Added after the seeded evaluation: (R9.5) HedTag.__deepcopy__ copies the cached expansion, its flag and the parent link; (R9.6) validators obtain expansions with a copy of the tag; (R9.7) every access to a definition table case-folds with casefold (one frozen exception: keys copied from another table); (R9.8) the nested-Def search in definition contents is recursive. (R9.9) the Def-expand content test compares sorted forms of both groups. (R9.10) the column-wise expand/shrink variants store through a single indexer (no chained assignment).'
 
 ROWS = [{"key": "DefinitionErrors." + k, "code": "DEFINITION_INVALID"} for k in (
     "WRONG_NUMBER_GROUPS", "WRONG_NUMBER_TAGS", "NO_DEFINITION_CONTENTS", "INVALID_DEFINITION_EXTENSION",
@@ -330,3 +330,22 @@ def run(ctx):
                   "and the stored definition contents are sorted: `(Def-expand/D, (Red, Blue))` is rejected for the definition "
                   "`(Definition/D, (Red, Blue))` while `(Def-expand/D, (Blue, Red))` is accepted" % norm(cmp_)[:60],
                   desc="Def-expand content compared on sorted forms")
+
+    # ---------------- R9.10: the column-wise variants really write into the caller's table
+    ctx.rule("R9.10", "the column-wise expand/shrink variants store through one indexer (no chained `df[col][mask] = ...`, a no-op under copy-on-write)")
+    dfu = prog.find_module("models.df_util")
+    n_store = 0
+    for f in dfu.functions.values():
+        for st in walk_no_nested(f.node):
+            if isinstance(st, (ast.Assign, ast.AugAssign)):
+                for t in (st.targets if isinstance(st, ast.Assign) else [st.target]):
+                    if isinstance(t, ast.Subscript):
+                        n_store += 1
+                        ctx.saw(f)
+                        chained = isinstance(t.value, ast.Subscript)
+                        ctx.check(not chained, "R9.10", f.qualname, st, loc(f, st),
+                                  "`%s` assigns through two successive subscripts: `df[col]` yields a temporary under pandas "
+                                  "copy-on-write, so the caller's table is left unchanged (shrinking/expanding a table is silently a "
+                                  "no-op), unlike the sibling variant that writes with `df.loc[mask, col] = ...`" % norm(t)[:50],
+                                  desc="%s: table store through a single indexer" % f.short)
+    ctx.floor("R9.10", "subscript stores in df_util", n_store, 6)
